@@ -7,6 +7,17 @@ import os
 HERE = os.path.dirname(os.path.dirname(os.path.abspath(__file__)))
 
 CHECKS = {
+    "C03": dict(
+        level="fault_enumeration",
+        technique="fault-point enumeration over Hypothesis-generated process states: vanish / zombify / deny injected at every OS access index of every query method on a simulated procfs",
+        text=("For each generated process state every public query form (42, plus process_iter with attrs) is run fault-free to count its OS accesses, then exhaustively re-run with the "
+              "process removed (atomically, and in the issue-2418 half-gone form) or zombified before each access and with each access pertaining to the process refused once; outcomes "
+              "must be a well-formed value or the psutil exception the fault can explain, carrying the pid; after a vanish all queries are repeated on the same object; (deny, vanish) "
+              "pairs are sampled (quick) - single faults are exhaustive per state, states are sampled."),
+        note=("Trusted: vlib/simk.py procfs error model (ENOENT at open/readlink/listdir/stat, ESRCH at read, zombie behaviour re-probed on a live zombie every run) and its access log. "
+              "Denials only at accesses pertaining to the process; a lone ENOENT on a live process is not injected."),
+        design="DESIGN.md section 3 C03",
+    ),
     "C06": dict(
         level="exploration",
         technique="property-based testing (Hypothesis): generated kernel records -> model round-trip oracle over a simulated procfs",
